@@ -32,8 +32,9 @@ import (
 const (
 	tileHeight    = 8
 	leavesPerTile = 1 << tileHeight
-	// maxTreeSize is the largest tree size which tlog's proof functions can handle.
-	maxTreeSize = 1 << 62
+	// maxTreeSize is the largest tree size which tlog's proof functions can handle:
+	// they evaluate maxpow2(size+1), which only terminates for arguments up to 2^62.
+	maxTreeSize = 1<<62 - 1
 )
 
 // FeedLog continually feeds checkpoints from the given log into the witness.
@@ -46,7 +47,7 @@ func FeedLog(ctx context.Context, l config.Log, w feeder.Witness, c *http.Client
 			return [][]byte{}, nil
 		}
 		// tlog works on int64 sizes, and its arithmetic only terminates for trees of
-		// at most 2^62 leaves: refuse anything a (log-signed) checkpoint claims beyond that.
+		// fewer than 2^62 leaves: refuse anything a (log-signed) checkpoint claims beyond that.
 		if to.Size > maxTreeSize || from.Size > to.Size {
 			return nil, fmt.Errorf("cannot build consistency proof between tree sizes %d and %d", from.Size, to.Size)
 		}
